@@ -1,6 +1,12 @@
 // Robustness driver: feeds arbitrary byte strings to the decoding / verifying / printing interfaces, one call group per target.
 // usage: fuzzdrv <script> <trace>
-// script line: id=<n> target=<name> data=<hex> [aux=<hex>] | id=<n> target=<name> sample=1 [variant=<v>]   (optional: alarm=<secs>, dead=1)
+// script line: id=<n> target=<name> data=<hex> [aux=<hex>] | id=<n> target=<name> sample=1 [variant=<v>]
+//   optional keys: alarm=<secs> (SIGALRM ends a hanging line), dead=1 (also call tls_client_key_shares_from_bytes, dead code),
+//   skip=<names> leaves out calls whose crash a campaign has already recorded (nothing is skipped by default):
+//     access_method (x509_access_method_from_der and the AIA parsers/printers above it), sequence_of_int,
+//     tls12_client_exts, tls13_client_exts, tls12_certificate, tls13_certificate
+// targets: asn1 oid x509_cert x509_exts x509_name x509_crl x509_req cms pkcs8 pem base64 hex sm2_sig sm2_ct sm2_point
+//          sm9_sig sm9_ct sm9_key tls_record tls_cbc tls13_gcm http     (aux: x509_cert/x509_crl CA certificate(s), cms 16-byte key, tls_cbc 5-byte header)
 // event F{id,target,rc,n}            rc = return code of the main decode call of the target, n = number of library calls made
 // event F{id,target,rc,sample,nvariants}  with sample=1: one valid object of the target's kind made by the library's own encoders
 // Rules kept throughout: the input is handed to the library in its exact-size allocation (kv_hex); every output buffer is an
@@ -193,7 +199,7 @@ static int t_asn1(const uint8_t *in, size_t n)
 	FRESH; C(asn1_set_from_der(&d, &dl, &p, &l));
 	FRESH; C(asn1_any_type_from_der(&tag, &d, &dl, &p, &l));
 	FRESH; C(asn1_nonempty_type_from_der(ASN1_TAG_OCTET_STRING, &d, &dl, &p, &l));
-	{ enum { MAXN = 8 }; int *nums = (int *)xa(sizeof(int) * MAXN); size_t cnt = 0; FRESH; C(asn1_sequence_of_int_from_der(nums, &cnt, MAXN, &p, &l)); }
+	if (!skp("sequence_of_int")) { enum { MAXN = 8 }; int *nums = (int *)xa(sizeof(int) * MAXN); size_t cnt = 0; FRESH; C(asn1_sequence_of_int_from_der(nums, &cnt, MAXN, &p, &l)); }
 	C(asn1_string_is_utf8_string((const char *)in, n)); C(asn1_string_is_printable_string((const char *)in, n)); C(asn1_string_is_ia5_string((const char *)in, n));
 	{ char *str = xstr(in, n); time_t t; if (n == ASN1_UTC_TIME_STRLEN) C(asn1_time_from_str(1, &t, str)); if (n == ASN1_GENERALIZED_TIME_STRLEN) C(asn1_time_from_str(0, &t, str)); }
 	FRESH; rc = C(asn1_any_from_der(&d, &dl, &p, &l));
@@ -869,8 +875,8 @@ static void hello_exts(const uint8_t *ex, size_t el, int hs_type, int dead)
 	C(tls_extensions_print(nul, ex, el, 0, 0)); C(tls13_extensions_print(nul, 0, 0, hs_type, ex, el));
 	if (hs_type == TLS_handshake_client_hello) {
 		// server side: the output area is TLS_MAX_EXTENSIONS_SIZE bytes in the TLS 1.2 and 1.3 servers and that is the maxlen they pass
-		{ uint8_t *out = xa(TLS_MAX_EXTENSIONS_SIZE); size_t ol = 0; C(tls_process_client_hello_exts(ex, el, out, &ol, TLS_MAX_EXTENSIONS_SIZE)); }
-		{ uint8_t *out = xa(TLS_MAX_EXTENSIONS_SIZE); size_t ol = 0; C(tls13_process_client_hello_exts(ex, el, &kee, &pt, out, &ol, TLS_MAX_EXTENSIONS_SIZE)); }
+		if (!skp("tls12_client_exts")) { uint8_t *out = xa(TLS_MAX_EXTENSIONS_SIZE); size_t ol = 0; C(tls_process_client_hello_exts(ex, el, out, &ol, TLS_MAX_EXTENSIONS_SIZE)); }
+		if (!skp("tls13_client_exts")) { uint8_t *out = xa(TLS_MAX_EXTENSIONS_SIZE); size_t ol = 0; C(tls13_process_client_hello_exts(ex, el, &kee, &pt, out, &ol, TLS_MAX_EXTENSIONS_SIZE)); }
 	} else {
 		int a, b, c; C(tls_process_server_hello_exts(ex, el, &a, &b, &c)); C(tls13_server_hello_extensions_get(ex, el, &pt));
 	}
@@ -913,8 +919,8 @@ static int t_tls_record(const uint8_t *in, size_t n, int dead)
 		if (C(tls_record_get_handshake_server_hello(rec, &proto, &rnd, &sid, &sidl, &cs, &ex, &exl)) == 1 && ex) hello_exts(ex, exl, TLS_handshake_server_hello, dead);
 		// tls_record_get_handshake_certificate has no capacity argument; every caller in the library hands it a
 		// TLS_MAX_CERTIFICATES_SIZE (2048) byte field of TLS_CONNECT, so that is the capacity given here
-		{ uint8_t *certs = xa(TLS_MAX_CERTIFICATES_SIZE); size_t cl = 0; if (C(tls_record_get_handshake_certificate(rec, certs, &cl)) == 1) { int vr; C(x509_certs_print(nul, 0, 0, "certs", certs, cl)); C(x509_certs_verify(certs, cl, X509_cert_chain_server, ca_cert, ca_len, X509_MAX_VERIFY_DEPTH, &vr)); } }
-		if (C(tls13_record_get_handshake_certificate(rec, &x, &xl, &y, &yl)) == 1) { uint8_t *certs = xa(TLS_MAX_CERTIFICATES_SIZE); size_t cl = 0; C(tls13_process_certificate_list(y, yl, certs, &cl)); }
+		if (!skp("tls12_certificate")) { uint8_t *certs = xa(TLS_MAX_CERTIFICATES_SIZE); size_t cl = 0; if (C(tls_record_get_handshake_certificate(rec, certs, &cl)) == 1) { int vr; C(x509_certs_print(nul, 0, 0, "certs", certs, cl)); C(x509_certs_verify(certs, cl, X509_cert_chain_server, ca_cert, ca_len, X509_MAX_VERIFY_DEPTH, &vr)); } }
+		if (C(tls13_record_get_handshake_certificate(rec, &x, &xl, &y, &yl)) == 1 && !skp("tls13_certificate")) { uint8_t *certs = xa(TLS_MAX_CERTIFICATES_SIZE); size_t cl = 0; C(tls13_process_certificate_list(y, yl, certs, &cl)); }
 		if (C(tls_record_get_handshake_server_key_exchange_ecdhe(rec, &curve, &pt, &sig, &sigl)) == 1) C(tls_verify_server_ecdh_params(&kee, RND32, RND32, curve, &pt, sig, sigl));
 		if (C(tlcp_record_get_handshake_server_key_exchange_pke(rec, &sig, &sigl)) == 1) C(sm2_signature_print(nul, 0, 0, "sig", sig, sigl));
 		if (C(tls_record_get_handshake_certificate_request(rec, &x, &xl, &y, &yl)) == 1) { C(tls_cert_types_accepted(x, xl, chain, chain_len)); if (y) { C(tls_authorities_issued_certificate(y, yl, chain, chain_len)); C(tls_certificate_subjects_print(nul, 0, 0, "cas", y, yl)); } }
